@@ -22,6 +22,7 @@ def run(rep):
     rep.guard(f8, rep, w)
     rep.guard(f9, rep, w)
     rep.guard(f10, rep, w)
+    rep.guard(f11, rep, w)
     rep.guard(c01.r1, rep, w)     # a suspended fiber keeps its own state: everything it holds (stack, frames, the caller link, a return parked behind a finally) is traced, unconditionally, while it waits
     import c17
     rep.guard(c17.l4, rep, w)     # the site of an exception in flight is recorded in the fiber it is in flight in (ObjFiber.error_ip): kept VM-wide, a second fiber's error
@@ -30,6 +31,7 @@ def run(rep):
     rep.guard(c06.s5, rep, w)   # a yield / switch must not close the suspended fiber's upvalues (its slots stay live)
     rep.guard(c06.s6, rep, w)   # a finishing fiber closes the upvalues of its body frame before the frame goes
     rep.guard(c06.s1, rep, w)   # ... and the closer itself is unconditional
+    rep.guard(c06.s9, rep, w)   # a fiber's captured variables point into its value stack: the storage never moves (no growth by reallocation)
     import c08
     rep.guard(c08.x3, rep, w)   # a finishing fiber drops its own handlers, not those of the fiber it returns to
 
@@ -559,3 +561,33 @@ def f10(rep, w):
         r.check(ok, '%s: the caller link is %s on every completed switch' % (nm, what),
                 '%s can complete a switch without the caller link being %s (stores in blocks %s): the link then describes an earlier switch, and the next yield / return of '
                 'that fiber goes to the wrong fiber' % (nm, what, sorted(stores)), f.loc())
+
+
+def f11(rep, w):
+    """the fibers a program can hold are the ones it made: every fiber value is built from a fiber that was allocated for it (Fiber.new). The
+    interpreter's own root fiber - the one running the main script - has no caller link, so the "already running" test does not cover it; handed
+    out as a value it can be called from one of its own callees, and the caller links form a cycle."""
+    r = rep.rule('F11', 'every fiber value handed to the program is made from a newly allocated fiber (the active / root fiber is never exposed)', floor=1)
+    n = 0
+    for f in sorted(w.yarel.fns.values(), key=lambda x: x.path):
+        org = None
+        for b in f.blocks:
+            for s_ in b['s']:
+                rr = s_.get('r', {})
+                if rr.get('rv') == 'agg' and rr.get('adt') == 'yarel::value::Value' and rr.get('v') == 'ObjFiber' and rr.get('ops'):
+                    org = org or origins(f)
+                    pl = op_place(rr['ops'][0])
+                    roots = org.get(pl['l'], ()) if pl is not None else ()
+                    if not roots:
+                        continue
+                    # re-wrapping a fiber that already was a value (taken out of a Value / an argument slot) is not an exposure
+                    if all(any(x.startswith('as ObjFiber') or x == '@try_as_obj_fiber' for x in q[1:]) for q in roots):
+                        continue
+                    n += 1
+                    bad = sorted({('Vm.' + '.'.join(x for x in q[1:] if x not in ('*',) and not x.startswith('@'))) if q[0][0] == 'arg' else q[0][2].rsplit('::', 1)[-1]
+                                  for q in roots if not (q[0][0] == 'call' and ('new_root_obj_fiber' in q[0][2] or q[0][2].endswith(('Root::<T>::new', 'ObjFiber::new'))))})
+                    r.check(not bad, '%s / fiber value made from a new fiber' % f.path.replace('yarel::', ''),
+                            '%s makes a fiber value from %s: a fiber the interpreter is running on (the root fiber has no caller link, so calling it from a callee is not refused '
+                            'and the links form a cycle)' % (f.path, bad), f.loc(s_.get('sp')))
+    if n == 0:
+        raise Broken('C09', 'anchor', 'no construction of a fiber value found')
